@@ -5,21 +5,41 @@
 (* state: bytes are fed one at a time while the scanner is inside a keyword*)
 (* (or just behind one); every edge (prefix . byte) is emitted with the     *)
 (* outcome of running the scanner model to end of file on exactly that tape*)
-(* and is replayed on the real Next().                                     *)
+(* and is replayed on the real Next().  The exploration starts at the      *)
+(* beginning of a file (Ctx = "root") or at a directive start reached      *)
+(* through a prefix that leaves other things on the scanner's stacks       *)
+(* (behind a response / request whose body is a child directive, behind a  *)
+(* TAG, a method line, a schema body, inside an explicit context).         *)
 (***************************************************************************)
 EXTENDS Scanner, Json
 
+CONSTANT Ctx
 VARIABLE st
 vars == <<st>>
 
-Init == st = Init0
+NL == <<10>>
+Sp2 == <<32, 32>>
+PrefixChunks ==
+  CASE Ctx = "root"     -> <<>>
+    [] Ctx = "respBody" -> << PlainChunk(<<50,48,48>> \o NL \o Sp2 \o KwBytes["Body"] \o <<32>> \o AnyB \o NL) >>            \* 200 / Body any
+    [] Ctx = "reqBody"  -> << PlainChunk(KwBytes["Request"] \o NL \o Sp2 \o KwBytes["Body"] \o <<32>> \o AnyB \o NL) >>        \* Request / Body any
+    [] Ctx = "tag"      -> << PlainChunk(<<50,48,48>> \o NL \o Sp2 \o KwBytes["Body"] \o <<32>> \o AnyB \o NL \o KwBytes["TAG"] \o <<32,64,116>> \o NL) >>   \* 200 / Body any / TAG @t
+    [] Ctx = "method"   -> << PlainChunk(KwBytes["GET"] \o <<32,47,97>> \o NL) >>                                                 \* GET /a
+    [] Ctx = "typeBody" -> << PlainChunk(KwBytes["TYPE"] \o <<32,64,116>> \o NL), BodyChunk(<<123,125>>, TRUE, FALSE, 0), PlainChunk(NL) >>   \* TYPE @t / {}
+    [] Ctx = "explicit" -> << PlainChunk(KwBytes["URL"] \o <<32,47,97>> \o NL \o <<40>> \o NL) >>                                 \* URL /a ( 
+RECURSIVE FeedAll(_, _, _)
+FeedAll(S, cs, i) == IF i > Len(cs) THEN S ELSE FeedAll(FeedChunk(S, cs[i]), cs, i + 1)
+Start == FeedAll(Init0, PrefixChunks, 1)
+P == Len(Start.tape)
+
+Init == st = Start
 
 InKeyword(S) == S.mode.m \in {"Trie", "R2", "R3"}
 JustBehindKeyword(S) == S.mode.m = "PA" /\ S.out # <<>> /\ S.out[Len(S.out)].t = "K"
                         /\ S.out[Len(S.out)].e = S.pos - 1
 
 FeedByte == /\ CanFeed(st)
-            /\ (st.tape = <<>> \/ InKeyword(st) \/ JustBehindKeyword(st))
+            /\ (Len(st.tape) = P \/ ((InKeyword(st) \/ JustBehindKeyword(st)) /\ st.pos > P))
             /\ \E c \in 0..255 : st' = FeedChunk(st, PlainChunk(<<c>>))
 
 Step == CanStep(st) /\ st' = StepS(st)
@@ -37,17 +57,17 @@ Terminators == {32, 9, 10, 13, 35, 47}
 
 \* M: a keyword lexeme is delivered exactly for the words of the language ...
 KeywordsExact ==
-  \A i \in 1..Len(st.out) : st.out[i].t = "K" => IsWord(Sub(st.tape, st.out[i].b, st.out[i].e))
+  \A i \in 1..Len(st.out) : (st.out[i].t = "K" /\ st.out[i].b >= P) => IsWord(Sub(st.tape, st.out[i].b, st.out[i].e))
 \* ... an error inside a keyword is at the first byte that leaves every word ...
 FirstDeviation ==
-  (st.res = "err" /\ st.err.c \in {"kw", "dirbegin"}) =>
+  (st.res = "err" /\ st.err.c \in {"kw", "dirbegin"} /\ st.err.i >= P) =>
       /\ st.err.i = Len(st.tape) - 1
-      /\ IsWordPrefix(SubSeq(st.tape, 1, st.err.i)) \/ st.err.i = 0
-      /\ ~IsWordPrefix(st.tape)
+      /\ IsWordPrefix(SubSeq(st.tape, P + 1, st.err.i)) \/ st.err.i = P
+      /\ ~IsWordPrefix(SubSeq(st.tape, P + 1, Len(st.tape)))
 \* ... and a complete word is accepted only in front of a terminator.
 NeedsTerminator ==
-  (st.res = "err" /\ st.err.c = "afterkw") =>
-      /\ IsWord(SubSeq(st.tape, 1, st.err.i))
+  (st.res = "err" /\ st.err.c = "afterkw" /\ st.err.i >= P) =>
+      /\ IsWord(SubSeq(st.tape, P + 1, st.err.i))
       /\ st.tape[st.err.i + 1] \notin Terminators
 NoPanicInv == NoPanic(st)
 
